@@ -1,5 +1,5 @@
 #!/usr/bin/env python3
-"""C03 -- stream payloads and filter chains decode to exactly the original bytes (DESIGN.md 3.C03)."""
+"""C03 -- stream payloads and filter chains decode to exactly the original bytes (DESIGN.md section 4, C03)."""
 import binascii
 import io
 import os
@@ -44,7 +44,7 @@ MANIFEST_ENTRY = {
             "is staged, see DESIGN.md).",
     "note": "Trusted: Coq kernel, translator (paeth, name tables), hand models tied by correspondence, harness encoders. "
             "zlib, base64.a85decode and binascii.unhexlify are modelled/oracles. Fix bcc9a95 (PNG row geometry) was needed.",
-    "design_ref": "DESIGN.md 3.C03",
+    "design_ref": "DESIGN.md section 4, C03",
 }
 
 
